@@ -2,6 +2,7 @@ import Lean.Data.Json
 import Verif.Model.Carrier
 import Verif.Drv.Json
 import Verif.Drv.Http
+import Verif.Drv.StdioIn
 open Lean
 -- DRIVER: carrier
 /-! Driver glue for C15: one conversation through the four model pipelines of
@@ -21,6 +22,8 @@ readers of `Drv.Http`.
  "httpsse":[{"post":{…},"evs":[{"name":"absent"|"message"|"response","nc":C,"dc":C,"after":[ignored…],"before":[E…]}…],
              "eols":[b…],"tail":"full"|"noblank"|"noeol","trailing":[E…]}…],      E = an event of Drv.Http (`eventOf`)
  "sse":{"pre":[{"k":"endpoint"|"keepalive"|"comment","d":str,"crlf":b}…],"crlf":[b…],"cuts":[n…],"acks":[n…]} | null}
+ optional, instead of the model's own rendering: "stdio_raw":{"hex":"…","cuts":[n…]},
+ "json_raw" / "httpsse_raw": [{"id":I|null,"status":n,"sess":…,"text":[cp…]}…]   (the very bytes / bodies the server wrote)
 -> {"stdio":[V…],"json":[V…]|null,"httpsse":[V…],"sse":[V…]|null}
    V = {"made":true} | {"id":I|null,"method":[cp…]|null,"params":T|null,"result":T|null,"error":T|null}
 ```
@@ -162,25 +165,46 @@ def getPre (j : Json) : Except String (SseReq.Ev × Bool) := do
   | "comment" => return (.comment d, crlf)
   | x => throw s!"bad pre event {x}"
 
+/-- `[{"id":I|null,"status":n,"text":[cp…]}…]`: the POSTs of a conversation with the very bodies the
+scripted server answered (batch arrays, any event-stream text) -/
+def getRawPosts (ct : HttpDecide.CType) (j : Json) : Except String (List (HttpDecide.Req × HttpDecide.Behaviour)) := do
+  (← j.getArr?).toList.mapM (fun p => do
+    let c ← getPost p
+    let text ← Verif.Drv.Json.cpsToChars (← p.getObjVal? "text")
+    pure ((⟨c.id⟩ : HttpDecide.Req), HttpDecide.Behaviour.resp
+      { status := c.status, ctype := ct, session := c.session, body := { text := text, utf8 := true } }))
+
 def handle (j : Json) : Except String Json := do
   let stj ← j.getObjVal? "style"
   let st : Json.Style := ⟨← stj.getObjValAs? Bool "sp", ← stj.getObjValAs? Bool "ascii"⟩
   let W := srcWire st
   let conv ← (← j.getObjValAs? (Array Json) "conv").toList.mapM getExchange
-  -- stdio
-  let sj ← j.getObjVal? "stdio"
-  let crlf := (← sj.getObjValAs? (Array Bool) "crlf").toList
-  let cuts := (← sj.getObjValAs? (Array Nat) "cuts").toList
-  let stdio := stdioObserve realStdio (cutAt (stdioBytes W conv crlf) cuts 0)
+  -- stdio: the model's own rendering of the conversation, or (`stdio_raw`) the very bytes the child wrote
+  -- (batch lines, blank lines, messages after a reply)
+  let stdio ← match optField j "stdio_raw" with
+    | some rj => do
+      let bytes ← Verif.Drv.StdioIn.unhex (← rj.getObjValAs? String "hex").toList
+      pure (stdioObserve realStdio (cutAt bytes (← rj.getObjValAs? (Array Nat) "cuts").toList 0))
+    | none => do
+      let sj ← j.getObjVal? "stdio"
+      let crlf := (← sj.getObjValAs? (Array Bool) "crlf").toList
+      let cuts := (← sj.getObjValAs? (Array Nat) "cuts").toList
+      pure (stdioObserve realStdio (cutAt (stdioBytes W conv crlf) cuts 0))
   -- HTTP + JSON
-  let json ← match optField j "json" with
-    | none => pure Json.null
-    | some cj => do
-      let choices ← (← cj.getArr?).toList.mapM getPost
-      pure (transcript (httpObserve realHttp none (zipD PostChoice.dflt (jsonPost W) conv choices)))
+  let json ← match optField j "json_raw" with
+    | some rj => do pure (transcript (httpObserve realHttp none (← getRawPosts .json rj)))
+    | none =>
+      match optField j "json" with
+      | none => pure Json.null
+      | some cj => do
+        let choices ← (← cj.getArr?).toList.mapM getPost
+        pure (transcript (httpObserve realHttp none (zipD PostChoice.dflt (jsonPost W) conv choices)))
   -- HTTP + SSE
-  let bodies ← (← j.getObjValAs? (Array Json) "httpsse").toList.mapM getBody
-  let httpsse := httpObserve realHttp none (zipD SseBodyChoice.dflt (sseBodyPost W) conv bodies)
+  let (httpsse, bodiesOk) ← match optField j "httpsse_raw" with
+    | some rj => do pure (httpObserve realHttp none (← getRawPosts .sse rj), true)
+    | none => do
+      let bodies ← (← j.getObjValAs? (Array Json) "httpsse").toList.mapM getBody
+      pure (httpObserve realHttp none (zipD SseBodyChoice.dflt (sseBodyPost W) conv bodies), bodies.all SseBodyChoice.ok)
   -- legacy SSE
   let sse ← match optField j "sse" with
     | none => pure Json.null
@@ -191,6 +215,6 @@ def handle (j : Json) : Except String Json := do
       let acks := (← ej.getObjValAs? (Array Nat) "acks").toList
       pure (transcript (sseObserve realSse (sseShape W conv acks) (cutAt (sseText W pre conv ecrlf) ecuts 0)))
   return Json.mkObj [("stdio", transcript stdio), ("json", json), ("httpsse", transcript httpsse), ("sse", sse),
-    ("bodies_ok", Json.bool (bodies.all SseBodyChoice.ok))]
+    ("bodies_ok", Json.bool bodiesOk)]
 
 end Verif.Drv.Carrier
